@@ -132,8 +132,19 @@ struct Trace {
     pushes: u64,
 }
 
+/// Bits 16.. of a salt choose the data class: 1 = all zero, 2 = all ones, otherwise pseudo-random
+/// (and, for values, all ones for one salt in seven: wider than any width below 64).
 fn rand_vals(n: usize, salt: u64) -> Vec<u64> {
-    Content::new(n, if salt % 7 == 0 { Pat::Ones } else { Pat::Random }, salt).words()
+    Content::new(n, match salt >> 16 { 1 => Pat::Zero, 2 => Pat::Ones, _ => if salt % 7 == 0 { Pat::Ones } else { Pat::Random } }, salt).words()
+}
+
+fn rand_bits(n: usize, salt: u64) -> Vec<u64> {
+    Content::new(n, match salt >> 16 { 1 => Pat::Zero, 2 => Pat::Ones, _ => Pat::Random }, salt).bit_words()
+}
+
+fn gen_salt(rng: &mut Rng) -> u64 {
+    let low = rng.next() & 0xFFFF;
+    match rng.below(20) { 0 | 1 => (1 << 16) | low, 2 => (2 << 16) | low, _ => low }
 }
 
 impl Writer {
@@ -142,7 +153,41 @@ impl Writer {
         self.real == RealMode::Plain && self.fault.is_some()
     }
 
+    /// Whole buffers of one value: `k` buffers of at least 4 KiB, some of them all zero (or all ones), the
+    /// history ending exactly on a buffer boundary, one item before it or one after it.
+    pub fn generate_uniform_buffers(rng: &mut Rng) -> Writer {
+        let kind = if rng.bool() { WKind::Raw } else { WKind::Int };
+        let width = if kind == WKind::Int { *rng.pick(&[1usize, 2, 8, 16, 32, 64, 64]) } else { 64 };
+        let (buf_bits, buf_len): (usize, Option<usize>) = if rng.chance(1, 10) { (8 * 1024 * 1024, None) } else { let b = *rng.pick(&[32_768usize, 32_768, 65_536, 262_144]); (b, Some(if kind == WKind::Int { b / width } else { b })) };
+        let k = rng.range_usize(1, 3);
+        let mut ops = Vec::new();
+        for i in 0..k {
+            let class: u64 = if i + 1 == k { *rng.pick(&[1u64, 1, 1, 2, 0]) } else { *rng.pick(&[0u64, 0, 1, 2]) };
+            let salt = (class << 16) | (rng.next() & 0xFFFF);
+            match kind {
+                WKind::Raw => if rng.bool() { ops.push(WOp::Ints { n: buf_bits / 64, w: 64, salt }) } else { ops.push(WOp::Ints { n: buf_bits / 32, w: 32, salt }) },
+                WKind::Int => if rng.bool() { ops.push(WOp::PushN { n: buf_bits / width, salt }) } else { ops.push(WOp::Extend { ity: 3, n: buf_bits / width, salt, inexact: rng.bool() }) },
+            }
+        }
+        match rng.below(6) {
+            0 => { ops.pop(); let salt = (1u64 << 16) | 5; match kind { WKind::Raw => ops.push(WOp::Ints { n: buf_bits / 64 - 1, w: 64, salt }), WKind::Int => ops.push(WOp::PushN { n: buf_bits / width - 1, salt }) } },
+            1 => ops.push(match kind { WKind::Raw => WOp::Bit(false), WKind::Int => WOp::Push(0) }),
+            _ => {},
+        }
+        if rng.chance(1, 4) { ops.push(WOp::Len); }
+        for _ in 0..rng.below(3) { ops.push(WOp::Close); }
+        Writer {
+            kind, width, buf_len, header: if kind == WKind::Raw && rng.chance(1, 4) { vec![rng.wide()] } else { Vec::new() }, ops,
+            chunk: if rng.chance(1, 2) { Chunk::Unbounded } else { Chunk::generate(rng) },
+            eintr: Vec::new(), fault: None,
+            real: if rng.chance(1, 6) { RealMode::Plain } else { RealMode::Sim },
+            preexisting: if rng.chance(1, 5) { *rng.pick(&[8usize, 4096, 100_000]) } else { 0 },
+            unwind_drop: rng.chance(1, 6),
+        }
+    }
+
     pub fn generate(rng: &mut Rng, faulty: bool, big: bool) -> Writer {
+        if !faulty && rng.chance(1, 250) { return Writer::generate_uniform_buffers(rng); }
         let kind = if rng.bool() { WKind::Raw } else { WKind::Int };
         let width = gen_width(rng);
         let unit = if kind == WKind::Int { width } else { 1 };
@@ -177,14 +222,14 @@ impl Writer {
                 WKind::Raw => match rng.below(10) {
                     0 | 1 => { ops.push(WOp::Bit(rng.bool())); bits += 1; },
                     2 | 3 | 4 => { let w = if rng.chance(1, 8) { *rng.pick(&[0usize, 1, 63, 64]) } else { rng.range_usize(0, 64) }; ops.push(WOp::Int { v: rng.next(), w }); bits += w; },
-                    5 | 6 => { let n = rng.range_usize(1, left.min(if huge { 3_000_000 } else { 300 }).max(1)); ops.push(WOp::Bits { n, salt: rng.next() & 0xFFFF }); bits += n; },
-                    _ => { let w = rng.range_usize(1, 64); let n = rng.range_usize(1, (left / w).min(if huge { 60_000 } else { 40 }).max(1)); ops.push(WOp::Ints { n, w, salt: rng.next() & 0xFFFF }); bits += n * w; },
+                    5 | 6 => { let n = rng.range_usize(1, left.min(if huge { 3_000_000 } else { 300 }).max(1)); ops.push(WOp::Bits { n, salt: gen_salt(rng) }); bits += n; },
+                    _ => { let w = rng.range_usize(1, 64); let n = rng.range_usize(1, (left / w).min(if huge { 60_000 } else { 40 }).max(1)); ops.push(WOp::Ints { n, w, salt: gen_salt(rng) }); bits += n * w; },
                 },
                 WKind::Int => match rng.below(10) {
                     0 | 1 | 2 => { ops.push(WOp::Push(if rng.chance(1, 4) { rng.next() } else { rng.wide() })); bits += width; },
-                    3 | 4 | 5 | 6 => { let n = rng.range_usize(1, (left / width).min(if huge { 100_000 } else { 60 }).max(1)); ops.push(WOp::PushN { n, salt: rng.next() & 0xFFFF }); bits += n * width; },
-                    7 if !faulty && rng.chance(1, 4) => { let n = rng.range_usize(1, 60); let at = rng.range_usize(0, n); ops.push(WOp::ExtendPanics { n, at, salt: rng.next() & 0xFFFF }); bits += at * width; },
-                    _ => { let n = rng.range_usize(0, (left / width).min(if huge { 100_000 } else { 60 }).max(1)); ops.push(WOp::Extend { ity: rng.below(5) as u8, n, salt: rng.next() & 0xFFFF, inexact: rng.chance(1, 3) }); bits += n * width; },
+                    3 | 4 | 5 | 6 => { let n = rng.range_usize(1, (left / width).min(if huge { 100_000 } else { 60 }).max(1)); ops.push(WOp::PushN { n, salt: gen_salt(rng) }); bits += n * width; },
+                    7 if !faulty && rng.chance(1, 4) => { let n = rng.range_usize(1, 60); let at = rng.range_usize(0, n); ops.push(WOp::ExtendPanics { n, at, salt: gen_salt(rng) }); bits += at * width; },
+                    _ => { let n = rng.range_usize(0, (left / width).min(if huge { 100_000 } else { 60 }).max(1)); ops.push(WOp::Extend { ity: rng.below(5) as u8, n, salt: gen_salt(rng), inexact: rng.chance(1, 3) }); bits += n * width; },
                 },
             }
             if rng.chance(1, 12) { ops.push(if rng.bool() { WOp::Len } else { WOp::IsOpen }); }
@@ -198,7 +243,7 @@ impl Writer {
             if i + 1 < closes || rng.chance(1, 3) { ops.push(if rng.bool() { WOp::Len } else { WOp::IsOpen }); }
             // Pushing into a closed writer cannot reach the file any more, but it is still counted by len().
             if !faulty && rng.chance(1, 8) {
-                ops.push(match kind { WKind::Raw => if rng.bool() { WOp::Bit(rng.bool()) } else { WOp::Int { v: rng.next(), w: rng.range_usize(1, 64) } }, WKind::Int => if rng.bool() { WOp::Push(rng.wide()) } else { WOp::PushN { n: rng.range_usize(1, 9), salt: rng.next() & 0xFFFF } } });
+                ops.push(match kind { WKind::Raw => if rng.bool() { WOp::Bit(rng.bool()) } else { WOp::Int { v: rng.next(), w: rng.range_usize(1, 64) } }, WKind::Int => if rng.bool() { WOp::Push(rng.wide()) } else { WOp::PushN { n: rng.range_usize(1, 9), salt: gen_salt(rng) } } });
                 ops.push(WOp::Len);
             }
         }
@@ -312,7 +357,7 @@ impl Writer {
                 match (op, &mut w) {
                     (WOp::Bit(b), W::Raw(x)) => { x.push_bit(*b); },
                     (WOp::Int { v: val, w: width }, W::Raw(x)) => unsafe { x.push_int(*val, *width); },
-                    (WOp::Bits { n, salt }, W::Raw(x)) => { let c = Content::new(*n, Pat::Random, *salt).bit_words(); for j in 0..*n { x.push_bit((c[j / 64] >> (j % 64)) & 1 == 1); } },
+                    (WOp::Bits { n, salt }, W::Raw(x)) => { let c = rand_bits(*n, *salt); for j in 0..*n { x.push_bit((c[j / 64] >> (j % 64)) & 1 == 1); } },
                     (WOp::Ints { n, w: width, salt }, W::Raw(x)) => { for val in rand_vals(*n, *salt) { unsafe { x.push_int(val, *width); } } },
                     (WOp::Push(val), W::Int(x)) => { x.push(*val); },
                     (WOp::PushN { n, salt }, W::Int(x)) => { for val in rand_vals(*n, *salt) { x.push(val); } },
@@ -346,6 +391,9 @@ impl Writer {
                     (WOp::Len, _) if tr.push_panicked => {},
                     (WOp::Len, W::Raw(x)) => { if x.len() != len_model { return Err(v("len", site, format!("op {}: len() = {}, {} bits were pushed", i, x.len(), len_model))); } if x.is_empty() != (len_model == 0) { return Err(v("len", site, "is_empty() disagrees with len()".into())); } },
                     (WOp::Len, W::Int(x)) => { if x.len() != len_model { return Err(v("len", site, format!("op {}: len() = {}, {} items were pushed", i, x.len(), len_model))); } if x.width() != self.width { return Err(v("len", site, "width() changed".into())); } },
+                    // Once a failure has been reported the statements say nothing about is_open(): a writer may keep
+                    // its file for a retry or give it up at once.
+                    (WOp::IsOpen, _) if !tr.reported.is_empty() => {},
                     (WOp::IsOpen, W::Raw(x)) => { if x.is_open() != open_model { return Err(v("is-open", site, format!("op {}: is_open() = {}, expected {}", i, x.is_open(), open_model))); } },
                     (WOp::IsOpen, W::Int(x)) => { if x.is_open() != open_model { return Err(v("is-open", site, format!("op {}: is_open() = {}, expected {}", i, x.is_open(), open_model))); } },
                     (WOp::Close, _) => {},
@@ -506,6 +554,8 @@ impl Writer {
             out.stats.probe_if(self.buf_len == Some(0), "buffer size 0");
             out.stats.probe_if(self.effective_buf_bits() > 8 * 1024 * 1024 && (tr.flush_overflow || tr.flush_exact), "flush of a buffer larger than the default");
             out.stats.probe_if(!self.header.is_empty(), "parent header (close_with_header)");
+            let zero_run = self.ops.iter().any(|op| match op { WOp::Ints { n, w, salt } => salt >> 16 == 1 && n * w >= 32_768, WOp::PushN { n, salt } | WOp::Extend { n, salt, .. } => salt >> 16 == 1 && n * self.width >= 32_768, _ => false });
+            out.stats.probe_if(zero_run && tr.flush_exact && self.effective_buf_bits() >= 32_768, "whole buffer of zeros ending on a flush boundary");
             out.stats.probe_if(self.real == RealMode::Plain, "real file system cross-check");
             out.stats.probe_if(self.preexisting > expected.len(), "longer file already present");
             return out;
@@ -645,7 +695,7 @@ fn apply_model(m: &mut M, op: &WOp, pushes: &mut u64) {
     match (op, m) {
         (WOp::Bit(b), M::Raw(x)) => { x.push_bit(*b); *pushes += 1; },
         (WOp::Int { v, w }, M::Raw(x)) => { unsafe { x.push_int(*v, *w); } *pushes += 1; },
-        (WOp::Bits { n, salt }, M::Raw(x)) => { let c = Content::new(*n, Pat::Random, *salt).bit_words(); for j in 0..*n { x.push_bit((c[j / 64] >> (j % 64)) & 1 == 1); } *pushes += *n as u64; },
+        (WOp::Bits { n, salt }, M::Raw(x)) => { let c = rand_bits(*n, *salt); for j in 0..*n { x.push_bit((c[j / 64] >> (j % 64)) & 1 == 1); } *pushes += *n as u64; },
         (WOp::Ints { n, w, salt }, M::Raw(x)) => { for val in rand_vals(*n, *salt) { unsafe { x.push_int(val, *w); } } *pushes += *n as u64; },
         (WOp::Push(v), M::Int(x)) => { x.push(*v); *pushes += 1; },
         (WOp::PushN { n, salt }, M::Int(x)) => { for val in rand_vals(*n, *salt) { x.push(val); } *pushes += *n as u64; },
